@@ -40,7 +40,7 @@ F = [
  dict(id='KF-RECOUT', family='rec_outside_consumer', properties=['C12', 'C01', 'C03', 'C11', 'C07', 'C08', 'C09', 'C14'],
       kinds=['wrong_value', 'unexpected_args', 'missing_execution', 'schedule_dependent_outcome', 'missing_default_call',
              'unexpected_default_call', 'over_execution', 'never_node_ran', 'wrong_case_routed', 'value_instead_of_error',
-             'error_instead_of_value', 'wrong_error', 'delivered_before_complete'],
+             'error_instead_of_value', 'wrong_error', 'delivered_before_complete', 'saved_value_not_final'],
       mechanism='a node outside a recurrent subgraph that reads a node inside it without being ordered after the subgraph (it does not depend on '
                 'the recurrent result): it is executed once, with the value of whichever iteration happened to be visible when it became ready '
                 '(manager.py _is_ready_to_execute / hide_last_execution), and it is not re-executed; C03 asks for the final-iteration value. Everything '
@@ -50,7 +50,8 @@ F = [
       mechanism='run() ends by asking its helper tasks to cancel (manager.py run(), finally: _stop_coro_tasks) and does not wait for them: the '
                 'cancellation reaches the future of loop.run_in_executor one loop iteration later, so a job that is still waiting in the queue of a '
                 'thread / process pool with fewer workers than ready nodes can be picked up by a worker, and the node body starts, in that one '
-                'iteration after run() has returned or raised. A pick-up later than that is reported as a violation (started_after_end)',
+                'iteration after run() has returned or raised. A pick-up later than that is reported as a violation (started_after_end). Reproduced on a '
+                'real loop with ThreadPoolExecutor(max_workers=1): cd /repo && /venv/bin/python /verif/witnesses/KF-POOLWINDOW-real-demo.py (exit 1 = window observed)',
       witness={'C13': 'witnesses/KF-POOLWINDOW.json'}),
  dict(id='KF-STORE-REC', family='rec_iterates', properties=['C19', 'C08'],
       kinds=['recurrent_marker_saved', 'saved_more_than_once', 'write_once_store_failed_run'],
@@ -65,6 +66,7 @@ F = [
 for f in F:
     f['status'] = 'open'
 FIXED = [
+ 'fixed: property=C02 9a8097c hang when a switch node returns an unhashable label (a list, a dict): TypeError in the case lookup killed the helper task of the switch and nobody was notified (witnesses/D40.json); also C09',
  'fixed: property=C03 126f370 a switch inside a recurrent subgraph kept the decision of the previous iteration: when the label changed, the consumer of the switch was started before the newly selected case had run and received None (witnesses/D39.json); also C01 C09 C11',
  'fixed: property=C09 b6e770f a switch case declared under a falsy label (\'\' or 0) was executed although another case was selected (witnesses/D38.json)',
  'fixed: property=C03 b55dc74 a node requested by a second sub-pipeline while a recurrent subgraph re-executed it (recurrent destination in two scopes, inner node read from outside): the hidden result was read as None, stored and delivered to consumers (witnesses/D37.json); also C01 C04 C09 C10 C11',
